@@ -9,7 +9,10 @@ for id in $ids; do
   if [ -n "$(git -C /repo status --porcelain -- SRC CBLAS)" ]; then echo "/repo is not clean"; exit 2; fi
   if ! git -C /repo apply $PWD/$p; then echo "$id: patch does not apply"; continue; fi
   ev=$(mktemp -d /tmp/seedev.XXXXXX)
-  cid=$(echo $id | cut -c1-3); VERIF_EVIDENCE_DIR=$ev timeout 3000 ./check $cid --tier quick > $ev/log 2>&1; rc=$?
+  cid=$(echo $id | cut -c1-3)
+  # a change delivered for one property whose breakage lives in another property's domain names the check that decides it
+  cw=$(python3 -c "import json,sys; print(json.load(open('seeded/$id/meta.json')).get('check_with',''))" 2>/dev/null); [ -n "$cw" ] && cid=$cw
+  VERIF_EVIDENCE_DIR=$ev timeout 3000 ./check $cid --tier quick > $ev/log 2>&1; rc=$?
   git -C /repo checkout -- SRC CBLAS
   nv=$(grep -c "^VIOLATION" $ev/log); nf=$(grep "^VIOLATION" $ev/log | grep -vc "no-failing-input-found")
   echo "$id: exit $rc, $nv VIOLATION lines ($nf with a failing input): $(grep -m1 -A1 '^VIOLATION' $ev/log | tail -1 | cut -c1-200)"
